@@ -10,6 +10,7 @@ mod peer;
 mod procs;
 mod runner;
 mod sender;
+mod tracesub;
 mod scen;
 mod wire;
 
@@ -29,6 +30,11 @@ fn usage() -> ! {
 
 fn main() {
     core::install_panic_hook();
+    // logging turned all the way up, process-wide (see tracesub.rs)
+    let _ = tracing::subscriber::set_global_default(tracesub::FormatEverything::new());
+    if log::set_logger(&tracesub::LOGGER).is_ok() {
+        log::set_max_level(log::LevelFilter::Trace);
+    }
     let args: Vec<String> = std::env::args().collect();
     if args.len() < 2 {
         usage();
